@@ -207,7 +207,8 @@ Definition fill_uhash (s : st) (recs : list (list Z)) (onfly : bool) : res st :=
   | Crash => Crash
   | Hang => Hang
   end.
-(* LoadUHash *)
+(* LoadUHash. The cold-load decision reads Shm.Shm.Number and Shm.Shm.Loaded, i.e. the SEGMENT, and nothing that is local to
+   the calling process. *)
 Definition load_uhash (s : st) (recs : list (list Z)) : res st :=
   if (number s =? 0) && (loaded s =? 0)
   then match fill_uhash s recs false with
@@ -216,6 +217,13 @@ Definition load_uhash (s : st) (recs : list (list Z)) : res st :=
        | Hang => Hang
        end
   else fill_uhash s recs true.
+
+(* The process-local part of cache.SHM: IsNew says whether THIS process created the segment (shmget with IPC_EXCL succeeded).
+   LoadUHash as coded does not consult it: whoever calls it - the creator, or a process that attached to a segment somebody
+   else created (and possibly never loaded) - takes the branch the segment's Number / Loaded select. *)
+Record proc : Type := mkproc { p_is_new : bool }.
+Definition creator : proc := mkproc true.
+Definition load_uhash_by (p : proc) (s : st) (recs : list (list Z)) : res st := load_uhash s recs.
 
 (* Shm.Reset(): everything zero *)
 Definition reset_st : st := mkst (tconst 0) (tconst 0) (tconst EMPTY_ID) 0 0.
@@ -229,6 +237,13 @@ Definition attach (g : segment) : attach_result :=
   if negb (seg_version g =? cache.SHM_VERSION) then ErrShmVersion
   else if negb (seg_size g =? cache.SHM_RAW_SZ) then ErrShmSize
   else Attached (seg_body g).
+(* NewSHM on a key whose segment exists already, by a second process: with isCreate = false it is shm.OpenShm; with isCreate = true
+   shm.CreateShm gets EEXIST from the IPC_EXCL shmget and retries without it. Either way isNew = false, the header is NOT
+   rewritten, and the version / size handshake decides. *)
+Definition new_shm_existing (is_create : bool) (g : segment) : proc * attach_result := (mkproc false, attach g).
+(* NewSHM(isCreate = true) on a key without segment: the kernel hands out zeroed memory, the creator writes the header
+   (Version, Size, Number = 0, Loaded = 0): the created-but-not-yet-loaded segment *)
+Definition new_shm_create : proc * segment := (creator, mkseg cache.SHM_VERSION cache.SHM_RAW_SZ reset_st).
 
 (* ---------------------------------------------------------------- observation *)
 (* the chain of bucket h as the harness walks it: slots, then -1 (proper end), -2 (link out of range) or -3 (longer than MAX_USERS) *)
@@ -274,7 +289,8 @@ Definition ret (x : hst) (r : res (st * Z)) (extra : list Z) : option (hst * lis
   end.
 Definition with_st (x : hst) (s : st) : hst := mkh s (hfile x) (hbattery x) (hbuckets x).
 
-Definition apply_op (x : hst) (g : list Z) : option (hst * list Z) :=
+(* one operation executed by process p on its view of the segment *)
+Definition apply_local (p : proc) (x : hst) (g : list Z) : option (hst * list Z) :=
   let s := hs x in
   match g with
   | 10 :: slot :: b => ret x (add_to_uhash s slot (fixlen IDSZ b)) []
@@ -297,7 +313,7 @@ Definition apply_op (x : hst) (g : list Z) : option (hst * list Z) :=
                  | None => Some (x, 3 :: ERR_INVALID_UID :: EMPTY_ID)
                  end
   | 20 :: b => Some (mkh s (ids_of b) (hbattery x) (hbuckets x), [0; 0])
-  | [21] => match load_uhash s (hfile x) with
+  | [21] => match load_uhash_by p s (hfile x) with
             | Ok s1 => Some (with_st x s1, [0; 0])
             | Crash => Some (x, [1; 0])
             | Hang => Some (x, [2; 0])
@@ -319,22 +335,46 @@ Definition apply_op (x : hst) (g : list Z) : option (hst * list Z) :=
   | _ => None
   end.
 
+(* the operations a second process is asked to execute (op 29) *)
+Definition proc2_op (g : list Z) : bool :=
+  match g with
+  | k :: _ => existsb (Z.eqb k) [10; 11; 12; 13; 14; 15; 21]
+  | [] => false
+  end.
+(* the first process of the harness is the creator of the segment; [29; mode; op...]: a second process attaches to the existing
+   segment (mode 1: with the create flag) and executes op on what it sees - the same memory *)
+Definition apply_op (x : hst) (g : list Z) : option (hst * list Z) :=
+  match g with
+  | 29 :: mode :: g' =>
+      if ((mode =? 0) || (mode =? 1)) && proc2_op g'
+      then match new_shm_existing (mode =? 1) (mkseg cache.SHM_VERSION cache.SHM_RAW_SZ (hs x)) with
+           | (p2, Attached v) => apply_local p2 (with_st x v) g'
+           | _ => None
+           end
+      else None
+  | _ => apply_local creator x g
+  end.
+
+(* a step with status 2 (an operation that did not return: the harness had to kill the process) ends the history *)
 Fixpoint run_wire (x : hst) (gs : list (list Z)) : option (list Z) :=
   match gs with
   | [] => Some []
   | g :: r => match apply_op x g with
               | None => None
-              | Some (x1, o) => match run_wire x1 r with Some t => Some (o ++ observe x1 ++ t) | None => None end
+              | Some (x1, o) => if nth 0 o 0 =? 2 then Some (o ++ observe x1)
+                                else match run_wire x1 r with Some t => Some (o ++ observe x1 ++ t) | None => None end
               end
   end.
 
 (* case: [1] | op | op | ...   the segment starts zeroed (Shm.Reset), .PASSWDS empty
          [2] | id bytes         StringHashWithHashBits
-         [3]                    constants *)
+         [3]                    constants
+         [4]                    is the harness's first process the creator of the segment *)
 Definition run_case (args : list (list Z)) : list Z :=
   match args with
   | [1] :: gs => match run_wire (mkh reset_st [] [] []) gs with Some t => ST_OK :: t | None => [ST_BADCASE] end
   | [[2]; b] => [ST_OK; uhash (fixlen IDSZ b)]
   | [[3]] => [ST_OK; MAXU; HASHN; Z.of_nat IDSZ; cache.SHM_VERSION; cache.SHM_RAW_SZ; PREALLOC]
+  | [[4]] => [ST_OK; if p_is_new creator then 1 else 0]
   | _ => [ST_BADCASE]
   end.
